@@ -10,6 +10,13 @@ O: one access per process.  Every test program prints `C08:BEFORE i=<index>`, pe
    depend on them are skipped and counted (guards against vacuity).
 Engines: native (asan nanoc + fastcc with ASan/UBSan), vm (asan nano_virt --run), nano_vm (asan nano_vm on the .nvm
    emitted by nano_virt), eval (the access inside a shadow block: asan nanoc must exit != 0 and write no binary).
+Construction kinds of the array: literal, built by array_push, the typed empty literal that never held an element,
+   pushed then emptied by pops, pushed then emptied by removals (the native runtime allocates struct storage on the
+   first push: an array that never held an element is a different object from an emptied one).
+Placement grid (VM engines nano_virt --run, nano_vm, the stand-alone executable from `nano_virt -o`; native and the
+   evaluator where the program shape is supported): the access sits in main's callee (main grid), in a nested call
+   chain, a loop body, a match arm, a call argument, a cond branch, in a function called from a top-level `let`
+   initialiser, or is the initialiser itself - a trap while the initialisers run must also keep main from running.
 Assembler level: TUPLE_GET / STRUCT_GET / STRUCT_SET / UNION_FIELD k with k >= count through probes/c08_asm_probe.c
    (repo's asm_assemble) into the real nano_vm (verifier on) and in-process with the verifier skipped.
 """
@@ -25,6 +32,7 @@ KINDS = ("int", "string", "bool", "struct")
 CONS = ("literal", "pushed")
 OPS = ("at", "array_set", "array_remove_at", "array_pop")
 ENGINES = ("native", "vm", "nano_vm", "eval")
+PLACE_ENGINES = ("native", "vm", "nano_vm", "wrap", "eval")
 LENGTHS = tuple(range(0, 9))
 I64MAX = (1 << 63) - 1
 I64MIN = -(1 << 63)
@@ -35,27 +43,54 @@ TYPE = {"int": "int", "string": "string", "bool": "bool", "struct": "P"}
 # ---------------------------------------------------------------------------------------------------------
 # the grid
 # ---------------------------------------------------------------------------------------------------------
-class Cell:
-    """one access = one process.  n = elements constructed; prepops = pops done (in range) before the access;
-    idx = index used by the access (None for array_pop); cls = index class; control = the access is in range."""
-    __slots__ = ("engine", "op", "kind", "cons", "n", "idx", "cls", "prepops", "control", "group")
+# construction kinds: "literal" [e0, e1, ...]; "pushed" [] + n pushes; "never" the typed empty literal that never held
+# an element; "emptied_pop" / "emptied_remove": n pushes, then emptied again by n in-range pops / removals at index 0
+EMPTIED = ("emptied_pop", "emptied_remove")
+# where the access sits (VM engines; the program shape around the access):
+PLACES = ("main", "nested", "loop", "match", "arg", "cond", "global_call", "global_direct")
+GLOBAL_PLACES = ("global_call", "global_direct")
 
-    def __init__(self, engine, op, kind, cons, n, idx, cls, prepops=0, control=False, group=None):
+
+class Cell:
+    """one access = one process.  n = elements constructed; prepops / prerem = in-range pops / removals at index 0
+    done before the access; repush = elements pushed after that (controls of emptied arrays); idx = index used by the
+    access (None for array_pop); cls = index class; control = the access is in range; place = where the access sits."""
+    __slots__ = ("engine", "op", "kind", "cons", "n", "idx", "cls", "prepops", "prerem", "repush", "control", "group",
+                 "place")
+
+    def __init__(self, engine, op, kind, cons, n, idx, cls, prepops=0, control=False, group=None, place="main",
+                 prerem=0, repush=0):
         self.engine, self.op, self.kind, self.cons, self.n = engine, op, kind, cons, n
         self.idx, self.cls, self.prepops, self.control = idx, cls, prepops, control
-        # group = the (op, kind, cons, length at the moment of the access) whose controls vouch for this cell
+        self.prerem, self.repush, self.place = prerem, repush, place
+        # group = the family (place, op, kind, construction, length) whose in-range controls vouch for this cell
         self.group = group
 
     def ident(self):
-        return (self.engine, self.op, self.kind, self.cons, self.n, self.prepops, self.idx)
+        return (self.engine, self.place, self.op, self.kind, self.cons, self.n, self.prepops, self.prerem, self.repush,
+                self.idx)
 
     def name(self):
-        return "%s|%s|%s|%s|n=%d%s|i=%s" % (self.engine, self.op, self.kind, self.cons, self.n,
-                                              ("-%dpops" % self.prepops) if self.prepops else "",
-                                              "-" if self.idx is None else self.idx)
+        pre = ""
+        if self.prepops:
+            pre += "-%dpops" % self.prepops
+        if self.prerem:
+            pre += "-%drem" % self.prerem
+        if self.repush:
+            pre += "+%dpush" % self.repush
+        return "%s%s|%s|%s|%s|n=%d%s|i=%s" % (self.engine, "" if self.place == "main" else "@" + self.place, self.op,
+                                              self.kind, self.cons, self.n, pre, "-" if self.idx is None else self.idx)
+
+    def content(self):
+        """element labels in the array at the moment of the access"""
+        c = list(range(self.n))
+        if self.prepops:
+            c = c[:len(c) - self.prepops]
+        c = c[self.prerem:]
+        return c + [0] * self.repush
 
     def live_len(self):
-        return self.n - self.prepops
+        return len(self.content())
 
 
 def oob_indices(n):
@@ -67,33 +102,82 @@ def oob_indices(n):
     return out
 
 
+def applicable(place, op, cons):
+    if place == "arg" and op == "array_set":
+        return False                      # array_set yields no value that could be passed on
+    if place == "global_direct":
+        return op != "array_set" and cons in ("literal", "never")
+    return True
+
+
+def family(engine, place, op, kind, cons, n):
+    """fault cells + controls of one (place, op, kind, construction, length)"""
+    cells = []
+    grp = (place, op, kind, cons, n)
+    # the one-element arrays that vouch for the empty literal (no index of it is in range)
+    never_ctl = ("literal",) if place == "global_direct" else CONS
+
+    def C(*a, **kw):
+        cells.append(Cell(engine, op, kind, *a, group=grp, place=place, **kw))
+
+    if cons in EMPTIED:
+        pk = {"prepops": n} if cons == "emptied_pop" else {"prerem": n}
+        if op == "array_pop":
+            C(cons, n, None, "empty", **pk)
+            C(cons, n, None, "ctl", control=True, repush=1, **pk)
+        else:
+            for cls, i in oob_indices(0):
+                C(cons, n, i, cls, **pk)
+            C(cons, n, 0, "ctl", control=True, repush=1, **pk)
+        return cells
+    if op == "array_pop":
+        # n elements, popped n times (each pop in range), then the pop on the empty array
+        C(cons, n, None, "empty", prepops=n)
+        if n == 0:
+            for cc in never_ctl:
+                C(cc, 1, None, "ctl", control=True)
+        else:
+            C(cons, n + 1, None, "ctl", prepops=n, control=True)
+        return cells
+    for cls, i in oob_indices(n):
+        C(cons, n, i, cls)
+    if n == 0:
+        for cc in never_ctl:
+            C(cc, 1, 0, "ctl", control=True)
+    else:
+        for i in sorted(set([0, n - 1])):
+            C(cons, n, i, "ctl", control=True)
+    return cells
+
+
 def grid(engine):
-    """all cells (faults + controls) of one engine"""
+    """main placement: all cells (faults + controls) of one engine"""
     cells = []
     for op in OPS:
         for kind in KINDS:
-            for cons in CONS:
-                for n in LENGTHS:
-                    if n == 0 and cons == "pushed":
-                        continue                      # zero pushes is the literal []
-                    grp = (op, kind, cons, n)
-                    if op == "array_pop":
-                        # n elements, popped n times (each pop in range), then the pop on the empty array
-                        cells.append(Cell(engine, op, kind, cons, n, None, "empty", prepops=n, group=grp))
-                        # control: n+1 elements, n pops, the access pops the last one
-                        ccons = "pushed" if n == 0 else cons
-                        cells.append(Cell(engine, op, kind, ccons, n + 1, None, "ctl", prepops=n, control=True, group=grp))
-                        continue
-                    for cls, i in oob_indices(n):
-                        cells.append(Cell(engine, op, kind, cons, n, i, cls, group=grp))
-                    if n == 0:
-                        # controls for the empty array (no index is in range): the one-element arrays of both
-                        # constructions, index 0; one of them has to behave
-                        for cc in CONS:
-                            cells.append(Cell(engine, op, kind, cc, 1, 0, "ctl", control=True, group=grp))
-                    else:
-                        for i in sorted(set([0, n - 1])):
-                            cells.append(Cell(engine, op, kind, cons, n, i, "ctl", control=True, group=grp))
+            for n in LENGTHS:
+                for cons in (("never",) if n == 0 else CONS):
+                    cells += family(engine, "main", op, kind, cons, n)
+            for cons in EMPTIED:
+                if op == "array_pop" and cons == "emptied_pop":
+                    continue              # = the pushed arrays emptied by pops above
+                for m in (1, 3):
+                    cells += family(engine, "main", op, kind, cons, m)
+    return cells
+
+
+def place_grid(engine):
+    """the other placements: lengths 0 (never pushed) and 3 (literal, pushed), every index class"""
+    places = [p for p in PLACES if p != "main" or engine == "wrap"]
+    if engine == "eval":
+        places = [p for p in places if p not in GLOBAL_PLACES]      # globals are not evaluated by shadow tests
+    cells = []
+    for place in places:
+        for op in OPS:
+            for kind in KINDS:
+                for cons, n in (("literal", 3), ("pushed", 3), ("never", 0)):
+                    if applicable(place, op, cons):
+                        cells += family(engine, place, op, kind, cons, n)
     return cells
 
 
@@ -118,22 +202,22 @@ def elem_out(kind, j):
     return "true" if j % 2 == 0 else "false"
 
 
-def new_src(kind, i):
+def new_src(kind, old):
     if kind == "int":
         return "77"
     if kind == "string":
         return '"new"'
     if kind == "bool":
-        return "false" if (i is not None and i >= 0 and i % 2 == 0) else "true"
+        return "false" if (old is not None and old % 2 == 0) else "true"
     return "P { x: 77, y: 78 }"
 
 
-def new_out(kind, i):
+def new_out(kind, old):
     if kind == "int" or kind == "struct":
         return "77"
     if kind == "string":
         return "new"
-    return "false" if (i is not None and i >= 0 and i % 2 == 0) else "true"
+    return "false" if (old is not None and old % 2 == 0) else "true"
 
 
 def val_expr(kind, v):
@@ -146,13 +230,53 @@ def idx_src(i):
     return str(i)
 
 
-def program(cell):
-    """source text + the lines a control must print between C08:VALUE and C08:AFTER"""
-    T = TYPE[cell.kind]
-    k = cell.kind
+def _global_direct(cell):
+    """the access is the initialiser expression of a top-level `let`; the array is another global"""
+    T, k = TYPE[cell.kind], cell.kind
     L = []
     if k == "struct":
         L.append("struct P { x: int, y: int }\n")
+    L.append("let mut GA: array<%s> = [%s]" % (T, ", ".join(elem_src(k, j) for j in range(cell.n))))
+    for p in range(cell.prepops):
+        L.append("let GP%d: %s = (array_pop GA)" % (p, T))
+    content = cell.content()
+    i = cell.idx
+    exp = []
+    if cell.op == "at":
+        L.append("let G: %s = (at GA %s)" % (T, idx_src(i)))
+        show = "    (println %s)" % val_expr(k, "G")
+        if cell.control:
+            exp = [elem_out(k, content[i])]
+    elif cell.op == "array_pop":
+        L.append("let G: %s = (array_pop GA)" % T)
+        show = "    (println %s)" % val_expr(k, "G")
+        if cell.control:
+            exp = [elem_out(k, content[-1])]
+    else:
+        L.append("let G: array<%s> = (array_remove_at GA %s)" % (T, idx_src(i)))
+        show = "    (println (array_length G))"
+        if cell.control:
+            exp = [str(len(content) - 1)]
+    L += ["fn main() -> int {", '    (println "C08:MAIN")', '    (println "C08:VALUE")', show, '    (println "C08:AFTER")',
+          "    return 0", "}", "shadow main { assert true }"]
+    return "\n".join(L) + "\n", [], exp
+
+
+def program(cell):
+    """source text, the values the in-range pre-pops print, the lines a control prints between C08:VALUE and C08:AFTER"""
+    if cell.place == "global_direct":
+        return _global_direct(cell)
+    T = TYPE[cell.kind]
+    k = cell.kind
+    place = cell.place
+    L = []
+    if k == "struct":
+        L.append("struct P { x: int, y: int }\n")
+    if place == "match":
+        L.append("union U {\n A { v: int },\n B { w: int }\n}\n")
+    if place == "arg":
+        L.append("fn idv(x: %s) -> %s {\n    return x\n}\nshadow idv { assert true }" % (T, T))
+        L.append("fn idn(x: int) -> int {\n    return x\n}\nshadow idn { assert true }")
     L.append("fn t(i: int) -> int {")
     if cell.cons == "literal":
         L.append("    let mut a: array<%s> = [%s]" % (T, ", ".join(elem_src(k, j) for j in range(cell.n))))
@@ -168,50 +292,99 @@ def program(cell):
         L.append('    (println "C08:PRE")')
         L.append("    (println %s)" % val_expr(k, "p%d" % p))
         pre.append(elem_out(k, cell.n - 1 - p))
+    for p in range(cell.prerem):
+        L.append("    (array_remove_at a 0)")
+    for p in range(cell.repush):
+        L.append("    set a (array_push a %s)" % elem_src(k, 0))
+    if cell.prerem or cell.repush:
+        L.append('    (println (+ "C08:NOW=" (int_to_string (array_length a))))')
     L.append('    (println (+ "C08:BEFORE i=" (int_to_string i)))')
-    exp = []
-    n = cell.live_len()
+    content = cell.content()
+    n = len(content)
     i = cell.idx
+    old = content[i] if (cell.control and i is not None) else None
+    core, exp = [], []
+    wrap_v = (lambda e: "(idv %s)" % e) if place == "arg" else (lambda e: "(cond ((== i i) %s) (else %s))" % (e, elem_src(k, 0))) \
+        if place == "cond" else (lambda e: e)
+    wrap_n = (lambda e: "(idn %s)" % e) if place == "arg" else (lambda e: "(cond ((== i i) %s) (else -5))" % e) \
+        if place == "cond" else None
     if cell.op == "at":
-        L.append("    let v: %s = (at a i)" % T)
-        L.append('    (println "C08:VALUE")')
-        L.append("    (println %s)" % val_expr(k, "v"))
+        core.append("let v: %s = %s" % (T, wrap_v("(at a i)")))
+        core.append('(println "C08:VALUE")')
+        core.append("(println %s)" % val_expr(k, "v"))
         if cell.control:
-            exp = [elem_out(k, i)]
+            exp = [elem_out(k, content[i])]
     elif cell.op == "array_set":
-        L.append("    (array_set a i %s)" % new_src(k, i))
-        L.append('    (println "C08:VALUE")')
-        L.append("    (println (array_length a))")
+        if place == "cond":
+            core.append("if (== i i) {\n        (array_set a i %s)\n    } else {\n        (println \"C08:ELSE\")\n    }" % new_src(k, old))
+        else:
+            core.append("(array_set a i %s)" % new_src(k, old))
+        core.append('(println "C08:VALUE")')
+        core.append("(println (array_length a))")
         if cell.control:
-            L.append("    let w: %s = (at a i)" % T)
-            L.append("    (println %s)" % val_expr(k, "w"))
-            exp = [str(n), new_out(k, i)]
+            core.append("let w: %s = (at a i)" % T)
+            core.append("(println %s)" % val_expr(k, "w"))
+            exp = [str(n), new_out(k, old)]
     elif cell.op == "array_remove_at":
-        L.append("    (array_remove_at a i)")
-        L.append('    (println "C08:VALUE")')
-        L.append("    (println (array_length a))")
-        if cell.control:
-            exp = [str(n - 1)]
-            if n - 1 > 0:
-                L.append("    let w: %s = (at a 0)" % T)
-                L.append("    (println %s)" % val_expr(k, "w"))
-                exp.append(elem_out(k, 1 if i == 0 else 0))
+        if wrap_n:
+            core.append("let m: int = %s" % wrap_n("(array_length (array_remove_at a i))"))
+            core.append('(println "C08:VALUE")')
+            core.append("(println m)")
+            if cell.control:
+                exp = [str(n - 1)]
+        else:
+            core.append("(array_remove_at a i)")
+            core.append('(println "C08:VALUE")')
+            core.append("(println (array_length a))")
+            if cell.control:
+                exp = [str(n - 1)]
+                if n - 1 > 0:
+                    core.append("let w: %s = (at a 0)" % T)
+                    core.append("(println %s)" % val_expr(k, "w"))
+                    rest = content[:i] + content[i + 1:]
+                    exp.append(elem_out(k, rest[0]))
     else:
-        L.append("    let v: %s = (array_pop a)" % T)
-        L.append('    (println "C08:VALUE")')
-        L.append("    (println %s)" % val_expr(k, "v"))
+        core.append("let v: %s = %s" % (T, wrap_v("(array_pop a)")))
+        core.append('(println "C08:VALUE")')
+        core.append("(println %s)" % val_expr(k, "v"))
         if cell.control:
-            exp = [elem_out(k, cell.n - 1 - cell.prepops)]
+            exp = [elem_out(k, content[-1])]
+    if place == "loop":
+        L.append("    let mut j: int = 0")
+        L.append("    while (< j 1) {")
+        L += ["        " + c for c in core]
+        L.append("        set j (+ j 1)")
+        L.append("    }")
+    elif place == "match":
+        L.append("    let u: U = U.A { v: 1 }")
+        L.append("    match u {")
+        L.append("        A(x) => {")
+        L += ["            " + c for c in core]
+        L.append("        },")
+        L.append('        B(y) => { (println "C08:WRONGARM") }')
+        L.append("    }")
+    else:
+        L += ["    " + c for c in core]
     L.append('    (println "C08:AFTER")')
     L.append("    return 0")
     L.append("}")
     arg = "0" if i is None else idx_src(i)
-    if cell.engine == "eval":
-        L.append("shadow t {\n    (t %s)\n}" % arg)
-        L.append("fn main() -> int {\n    return 0\n}")
-    else:
+    entry = "t"
+    if place == "nested":
         L.append("shadow t { assert true }")
-        L.append("fn main() -> int {\n    return (t %s)\n}" % arg)
+        L.append("fn mid(i: int) -> int {\n    return (t i)\n}\nshadow mid { assert true }")
+        L.append("fn outer(i: int) -> int {\n    let r: int = (mid i)\n    return r\n}")
+        entry = "outer"
+    if cell.engine == "eval":
+        L.append("shadow %s {\n    (%s %s)\n}" % (entry, entry, arg))
+        L.append("fn main() -> int {\n    return 0\n}")
+    elif place == "global_call":
+        L.append("shadow t { assert true }")
+        L.append("let G: int = (t %s)" % arg)
+        L.append('fn main() -> int {\n    (println "C08:MAIN")\n    return G\n}')
+    else:
+        L.append("shadow %s { assert true }" % entry)
+        L.append("fn main() -> int {\n    return (%s %s)\n}" % (entry, arg))
     L.append("shadow main { assert true }")
     return "\n".join(L) + "\n", pre, exp
 
@@ -255,7 +428,7 @@ def execute(flavor, sc, cell, seq):
     src, pre, exp = program(cell)
     o = Out(cell)
     o.src = src
-    d = sc.sub("%s/%05d" % (cell.engine, seq))
+    d = sc.sub("%s/%s%05d" % (cell.engine, "" if cell.place == "main" else "p", seq))
     engines.write_files(d, {"main.nano": src})
     r = None
     if cell.engine in ("native", "eval"):
@@ -277,6 +450,19 @@ def execute(flavor, sc, cell, seq):
             r = sh([os.path.join(d, "main.bin")], cwd=d, cpu=10, san=True, env=NATIVE_ENV)
     elif cell.engine == "vm":
         r = engines.run_vm(flavor, d, san=True)
+    elif cell.engine == "wrap":
+        # stand-alone executable with the VM embedded; its generated main() must see the same VmState layout as the
+        # flavor's objects, hence -DNANOLANG_VERIF
+        rb = sh([flavor.nano_virt, "main.nano", "-o", "main.w"], cwd=d, cpu=60, san=True,
+                env=flavor.fastcc_env({"TMPDIR": d, "NLV_FASTCC_EXTRA": "-D" + build.GUARD}))
+        if rb.timeout:
+            o.skip = "wrap-timeout"
+        elif rb.rc != 0 or not os.path.exists(os.path.join(d, "main.w")):
+            o.skip = "wrap-build-failed"
+            o.stderr = rb.errtext()[-1500:]
+        if o.skip:
+            return o
+        r = sh([os.path.join(d, "main.w")], cwd=d, cpu=10, san=True)
     else:
         rb = sh([flavor.nano_virt, "main.nano", "--emit-nvm", "-o", "main.nvm"], cwd=d, cpu=20, san=True)
         if rb.timeout:
@@ -314,7 +500,8 @@ def judge(o):
     c = o.cell
     _, pre, exp = program(c)
     has_value = "C08:VALUE" in o.lines
-    has_after = "C08:AFTER" in o.lines
+    # a fault during global initialisation must also keep main from running
+    has_after = "C08:AFTER" in o.lines or (not c.control and "C08:MAIN" in o.lines)
     status0 = (o.rc == 0 and not o.sig)
     if c.control:
         if o.san:
@@ -328,6 +515,8 @@ def judge(o):
             return "control-failed:value", "expected %r got %r" % (exp, got)
         if setup_ok(o) is not True:
             return "control-failed:setup", ""
+        if c.place in GLOBAL_PLACES and "C08:MAIN" not in o.lines:
+            return "control-failed:main-not-reached", ""
         if c.engine == "eval" and not o.binary:
             return "control-failed:no-binary", ""
         return "ok", ""
@@ -345,9 +534,11 @@ def judge(o):
 
 
 def setup_ok(o):
-    """for a fault cell whose stdout survived: the lines before the access are as constructed (length, pre-pops,
-    index as written).  None = cannot tell (stdout lost)."""
+    """for a cell whose stdout survived: the lines before the access are as constructed (length, pre-pops, length after
+    the removals / re-push, index as written).  None = cannot tell (stdout lost)."""
     c = o.cell
+    if c.place == "global_direct":
+        return True                        # nothing is printed before the initialisers run
     _, pre, exp = program(c)
     bl = [l for l in o.lines if l.startswith("C08:BEFORE")]
     if not bl:
@@ -356,6 +547,8 @@ def setup_ok(o):
     if bl[0] != "C08:BEFORE i=%d" % want_i:
         return False
     if "C08:LEN=%d" % c.n not in o.lines:
+        return False
+    if (c.prerem or c.repush) and "C08:NOW=%d" % c.live_len() not in o.lines:
         return False
     got_pre = []
     for k, l in enumerate(o.lines):
@@ -505,38 +698,76 @@ def char_at_program(engine, n, i):
 # ---------------------------------------------------------------------------------------------------------
 # the check
 # ---------------------------------------------------------------------------------------------------------
+CLASSES = ["neg", "len", "len+1", "2^31", "2^32+k", "int64max", "int64min"]
+
+
+def _with_controls(cells, chosen):
+    groups = set(c.group for c in chosen)
+    return chosen + [c for c in cells if c.control and c.group in groups]
+
+
 def native_sample(ctx, cells):
-    """quick tier: ~150 fault cells of the native grid, stratified: two random lengths per (op, kind, construction),
-    three index classes per chosen group (rotating so that every class is hit equally often), every array_pop
-    (kind, construction) once; plus the controls of the chosen groups."""
+    """quick tier, native, main placement: (1) two random lengths 1..8 per (op, kind, literal|pushed) with three index
+    classes each (rotating so that every class is hit equally often); (2) EVERY (op, kind) on the empty literal that
+    never held an element, three rotating classes; (3) every (op, kind) on one emptied array (by pops / by removals,
+    alternating); plus the controls of the chosen families."""
     rng = ctx.rng("native-sample")
     by_group = {}
     for c in cells:
-        by_group.setdefault(c.group, []).append(c)
+        if not c.control:
+            by_group.setdefault(c.group, []).append(c)
     chosen = []
     j = 0
+
+    def pick(grp, k):
+        nonlocal j
+        faults = by_group[grp]
+        if grp[1] == "array_pop":
+            return list(faults)
+        out = []
+        for t in range(k):
+            cands = [c for c in faults if c.cls == CLASSES[(3 * j + t) % 7]]
+            out.append(rng.choice(cands))
+        j += 1
+        return out
+
     for op in OPS:
         for kind in KINDS:
             for cons in CONS:
-                ns = [n for n in LENGTHS if (op, kind, cons, n) in by_group]
-                if op == "array_pop":
-                    picks = rng.sample(ns, 1)
-                else:
-                    picks = rng.sample(ns, 2)
-                for n in picks:
-                    grp = by_group[(op, kind, cons, n)]
-                    faults = [c for c in grp if not c.control]
-                    if op == "array_pop":
-                        chosen += faults
-                    else:
-                        classes = ["neg", "len", "len+1", "2^31", "2^32+k", "int64max", "int64min"]
-                        for t in range(3):
-                            cls = classes[(3 * j + t) % 7]
-                            cands = [c for c in faults if c.cls == cls]
-                            chosen.append(rng.choice(cands))
-                        j += 1
-                    chosen += [c for c in grp if c.control]
-    return chosen
+                ns = [n for n in LENGTHS if ("main", op, kind, cons, n) in by_group]
+                for n in rng.sample(ns, 1 if op == "array_pop" else 2):
+                    chosen += pick(("main", op, kind, cons, n), 3)
+            chosen += pick(("main", op, kind, "never", 0), 3)
+            es = [g for g in by_group if g[:3] == ("main", op, kind) and g[3] in EMPTIED]
+            es.sort()
+            chosen += pick(es[(j + KINDS.index(kind)) % len(es)], 2)
+    return _with_controls(cells, chosen)
+
+
+def place_sample(ctx, engine, cells, quick):
+    """the placement grid is sampled per (place, op[, kind]) with rotating construction and index classes; thorough
+    runs all of it on vm / nano_vm / native / eval (the wrapper executable costs a C link per cell and stays sampled)"""
+    if not quick and engine != "wrap":
+        return cells
+    rng = ctx.rng("place-sample", engine)
+    per_kind = engine in ("vm", "nano_vm", "eval") or not quick
+    take = {"vm": 2, "nano_vm": 2, "eval": 1, "native": 2, "wrap": 1 if quick else 4}[engine]
+    strata = {}
+    for c in cells:
+        if not c.control:
+            strata.setdefault((c.place, c.op, c.kind if per_kind else None), []).append(c)
+    chosen = []
+    j = 0
+    for key in sorted(strata, key=str):
+        faults = strata[key]
+        for t in range(take):
+            want = CLASSES[(2 * j + 3 * t) % 7]
+            cands = [c for c in faults if c.cls == want] or faults
+            cons = sorted(set(c.cons for c in cands))
+            cc = cons[(j + t) % len(cons)]
+            chosen.append(rng.choice([c for c in cands if c.cons == cc]))
+        j += 1
+    return _with_controls(cells, chosen)
 
 
 def describe(o):
@@ -547,14 +778,17 @@ def describe(o):
 
 
 def key_for(c, observed):
-    if c.engine in ("vm", "nano_vm"):
-        return "%s|%s|%s|%s" % (c.engine, c.op, c.cls, observed)
+    eng = c.engine if c.place == "main" else "%s@%s" % (c.engine, c.place)
+    if c.engine in ("vm", "nano_vm", "wrap"):
+        return "%s|%s|%s|%s" % (eng, c.op, c.cls, observed)
     if c.engine == "native":
-        return "native|%s|%s|%s|%s" % (c.op, c.kind, c.cls, observed)
-    return "eval|%s|%s|%s|%s" % (c.op, c.cons, c.cls, observed)
+        # the never-pushed / emptied arrays go through other runtime paths than arrays that hold elements
+        extra = "" if c.cons in CONS else ":" + c.cons
+        return "%s|%s|%s%s|%s|%s" % (eng, c.op, c.kind, extra, c.cls, observed)
+    return "%s|%s|%s|%s|%s" % (eng, c.op, c.cons, c.cls, observed)
 
 
-ENGINE_TEXT = {"vm": "nano_virt --run", "nano_vm": "nano_vm on the .nvm emitted by nano_virt", "native": "the compiled binary",
+ENGINE_TEXT = {"wrap": "the stand-alone executable from nano_virt -o (embedded VM)", "vm": "nano_virt --run", "nano_vm": "nano_vm on the .nvm emitted by nano_virt", "native": "the compiled binary",
                "eval": "nanoc's evaluator (shadow block)"}
 OBS_TEXT = {"continued": "the program keeps running (the statements after the access print, C08:AFTER is reached)",
             "value": "the access yields a value the program goes on to use (C08:VALUE printed)",
@@ -565,6 +799,7 @@ def run(ctx):
     asan = build.get("asan")
     ctx.require(os.path.exists(asan.probe("c08_asm_probe")), "probe c08_asm_probe missing from the asan flavor")
     with Scratch("c08") as sc:
+        # plan keys: "<engine>" = main placement (the design's grid), "<engine>@place" = the placement grid
         plan = {}
         full = {}
         for eng in ENGINES:
@@ -572,17 +807,20 @@ def run(ctx):
             full[eng] = cells
             if eng == "native" and ctx.quick():
                 cells = native_sample(ctx, cells)
-            uniq = {}
-            for c in cells:
+            plan[eng] = cells
+        for eng in PLACE_ENGINES:
+            cells = place_grid(eng)
+            full[eng + "@place"] = cells
+            plan[eng + "@place"] = place_sample(ctx, eng, cells, ctx.quick())
+        PK = list(plan)
+        uniq = {}
+        for pk in PK:
+            for c in plan[pk]:
                 uniq.setdefault(c.ident(), c)
-            plan[eng] = (cells, uniq)
 
-        jobs = []
-        for eng in ENGINES:
-            for k, c in enumerate(plan[eng][1].values()):
-                jobs.append((c, k))
+        jobs = [(c, k) for k, c in enumerate(uniq.values())]
         # expensive engines first so that the pool drains evenly
-        jobs.sort(key=lambda t: {"native": 0, "eval": 1, "nano_vm": 2, "vm": 3}[t[0].engine])
+        jobs.sort(key=lambda t: {"native": 0, "eval": 1, "wrap": 2, "nano_vm": 3, "vm": 4}[t[0].engine])
 
         def do(job):
             c, k = job
@@ -599,20 +837,25 @@ def run(ctx):
         nonstop = {}              # every cell that was not stopped, by violation key (known or not)
         ctl_hist = {}
         skipped = {}
-        evaluated = {e: 0 for e in ENGINES}
+        evaluated = {e: 0 for e in PK}
+        executed = {e: 0 for e in PK}
         distinct = set()
-        controls_ok = {e: 0 for e in ENGINES}
-        controls_all = {e: 0 for e in ENGINES}
+        controls_ok = {e: 0 for e in PK}
+        controls_all = {e: 0 for e in PK}
+        place_hist = {}
         timeouts = 0
         samples = []
         # controls
         ctl_verdict = {}
-        for eng in ENGINES:
-            for ident, c in plan[eng][1].items():
-                if not c.control:
+        for pk in PK:
+            seen = set()
+            for c in plan[pk]:
+                ident = c.ident()
+                if not c.control or ident in seen:
                     continue
+                seen.add(ident)
                 o = results[ident]
-                controls_all[eng] += 1
+                controls_all[pk] += 1
                 if o.skip:
                     v = "skip:" + o.skip
                 elif o.timeout:
@@ -622,12 +865,12 @@ def run(ctx):
                     v = judge(o)[0]
                 ctl_verdict[ident] = v
                 if v == "ok":
-                    controls_ok[eng] += 1
-                hk = "%s|%s|%s|%s|%s" % (eng, c.op, c.kind, c.cons, v)
+                    controls_ok[pk] += 1
+                hk = "%s|%s|%s|%s|%s" % (c.name().split("|")[0], c.op, c.kind, c.cons, v)
                 ctl_hist[hk] = ctl_hist.get(hk, 0) + 1
         # faults
-        for eng in ENGINES:
-            cells, uniq = plan[eng]
+        for pk in PK:
+            cells = plan[pk]
             groups = {}
             for c in cells:
                 if c.control:
@@ -637,10 +880,13 @@ def run(ctx):
                 if c.control or c.ident() in seen:
                     continue
                 seen.add(c.ident())
+                executed[pk] += 1
+                eng = c.engine
+                tag = c.name().split("|")[0]
                 o = results[c.ident()]
                 cv = [ctl_verdict[i] for i in dict.fromkeys(groups.get(c.group, []))]
-                n_at_access = c.group[3]
-                vouched = bool(cv) and (any(v == "ok" for v in cv) if n_at_access == 0 else all(v == "ok" for v in cv))
+                # the empty literal has no index in range: one of the one-element arrays has to behave
+                vouched = bool(cv) and (any(v == "ok" for v in cv) if c.cons == "never" else all(v == "ok" for v in cv))
                 reason = None
                 if o.skip:
                     reason = o.skip
@@ -655,29 +901,33 @@ def run(ctx):
                 elif setup_ok(o) is False:
                     reason = "setup-differs"
                 if reason:
-                    sk = "%s|%s|%s|%s|%s" % (eng, c.op, c.kind, c.cons, reason)
+                    sk = "%s|%s|%s|%s|%s" % (tag, c.op, c.kind, c.cons, reason)
                     skipped[sk] = skipped.get(sk, 0) + 1
                     continue
                 verdict, detail = judge(o)
                 if verdict == "sanitizer":
                     verdict = "sanitizer:" + san_kind(o.san)
-                evaluated[eng] += 1
+                evaluated[pk] += 1
                 distinct.add(c.ident())
-                hk = "%s|%s|%s|%s" % (eng, c.op, c.cls, verdict)
+                hk = "%s|%s|%s|%s" % (tag, c.op, c.cls, verdict)
                 hist[hk] = hist.get(hk, 0) + 1
+                if c.place != "main" or c.engine == "wrap":
+                    ph = "%s|%s" % (tag, verdict)
+                    place_hist[ph] = place_hist.get(ph, 0) + 1
                 if verdict == "stopped":
-                    if len(samples) < 8 and (len(samples) < 4 or eng not in [s["engine"] for s in samples]):
-                        samples.append({"engine": eng, "cell": c.name(), "rc": o.rc, "signal": o.sig,
+                    if len(samples) < 10 and (len(samples) < 3 or tag not in [x["engine"] for x in samples]):
+                        samples.append({"engine": tag, "cell": c.name(), "rc": o.rc, "signal": o.sig,
                                         "stderr_tail": o.stderr.strip()[-160:]})
                     continue
-                what = ("%s: `%s` on an array<%s> (%s, length %d at the access) with %s is not stopped: %s\n"
+                what = ("%s: `%s` on an array<%s> (%s, length %d at the access, access placed: %s) with %s is not stopped: %s\n"
                         "cell %s, index class %s\n%s" % (
-                            ENGINE_TEXT[eng], c.op, TYPE[c.kind], c.cons, c.live_len(),
+                            ENGINE_TEXT[eng], c.op, TYPE[c.kind], c.cons, c.live_len(), c.place,
                             "no element left" if c.idx is None else "index %d" % c.idx,
                             OBS_TEXT.get(verdict, "sanitizer report: " + (o.san or "")[:300]),
                             c.name(), c.cls, describe(o)))
                 files = {"main.nano": o.src, "stdout.txt": o.text, "stderr.txt": o.stderr,
                          "cmd.txt": {"vm": "nano_virt main.nano --run", "nano_vm": "nano_virt main.nano --emit-nvm -o main.nvm && nano_vm main.nvm",
+                                     "wrap": "nano_virt main.nano -o main.w && ./main.w   # NANO_CC=tools/fastcc, -DNANOLANG_VERIF",
                                      "native": "nanoc main.nano -o main.bin && ./main.bin   # asan flavor, NANO_CC=tools/fastcc",
                                      "eval": "nanoc main.nano -o main.bin --verbose   # must fail and write no binary"}[eng] + "\n"}
                 key = key_for(c, verdict)
@@ -761,29 +1011,43 @@ def run(ctx):
         n_proc = len(jobs) + 2 * len(acells) + len(ca_jobs)
         if not ctx.violations:
             ctx.require(timeouts == 0, "%d cell(s) hit the watchdog twice" % timeouts)
-            for eng, lo in (("vm", 0.9), ("nano_vm", 0.9), ("eval", 0.4), ("native", 0.5)):
-                total = sum(1 for c in plan[eng][1].values() if not c.control)
-                ctx.require(evaluated[eng] >= lo * total,
-                            "engine %s: only %d of %d fault cells could be evaluated (controls failed / not built)" % (eng, evaluated[eng], total))
+            for pk, lo in (("vm", 0.9), ("nano_vm", 0.9), ("eval", 0.4), ("native", 0.5),
+                           ("vm@place", 0.8), ("nano_vm@place", 0.8), ("wrap@place", 0.6)):
+                ctx.require(evaluated[pk] >= lo * executed[pk],
+                            "%s: only %d of %d fault cells could be evaluated (controls failed / not built)" % (pk, evaluated[pk], executed[pk]))
+            for place in GLOBAL_PLACES:
+                for e in ("vm", "nano_vm", "wrap"):
+                    ctx.require(place_hist.get("%s@%s|stopped" % (e, place), 0) >= 3,
+                                "fewer than 3 cells evaluated for %s with the access in placement %s" % (e, place))
             ctx.require(asm_eval >= 100, "too few assembler-level cells evaluated (%d)" % asm_eval)
-        grid_sizes = {e: sum(1 for c in {c.ident(): c for c in full[e]}.values() if not c.control) for e in ENGINES}
+        grid_sizes = {e: sum(1 for c in {c.ident(): c for c in full[e]}.values() if not c.control) for e in full}
         return ctx.finish({
             "evaluations": n_proc,
             "distinct_nontrivial": len(distinct),
-            "rule": "distinct (engine, op, element kind, construction, length, pre-pops, index) out-of-range cells that were executed "
-                    "(one process each) AND whose in-range controls of the same (engine, op, kind, construction, length) printed the "
-                    "expected value + AFTER and exited 0, plus distinct (runner, opcode, field count, k) assembler cells whose control passed",
+            "rule": "distinct (engine, placement, op, element kind, construction, length, pre-pops/removals, index) out-of-range cells that "
+                    "were executed (one process each) AND whose in-range controls of the same (engine, placement, op, kind, construction, "
+                    "length) printed the expected value + AFTER and exited 0, plus distinct (runner, opcode, field count, k) assembler cells "
+                    "whose control passed",
             "exhaustive": True,
-            "explanation": ("grid = lengths 0..8 x indices {-1, len, len+1, 2^31, 2^32+k for every k<len (2^32 for len 0), 2^63-1, -2^63} x "
-                            "{at, array_set, array_remove_at} x {int,string,bool,struct} x {literal, built by array_push}, plus array_pop on "
-                            "an array of every length 0..8 emptied by in-range pops; enumerated completely on " +
-                            ("vm, nano_vm and the evaluator; native is a stratified sample of %d fault cells" % sum(1 for c in plan["native"][1].values() if not c.control)
+            "explanation": ("main grid = lengths 0..8 x indices {-1, len, len+1, 2^31, 2^32+k for every k<len (2^32 for len 0), 2^63-1, -2^63} x "
+                            "{at, array_set, array_remove_at} x {int,string,bool,struct} x construction {literal, built by array_push, typed empty "
+                            "literal never pushed (length 0), pushed 1|3 then emptied by pops, pushed 1|3 then emptied by removals}, plus "
+                            "array_pop on an array of every length 0..8 emptied by in-range pops / removals; enumerated completely on " +
+                            ("vm, nano_vm and the evaluator; native is a stratified sample of %d fault cells that contains every (op, kind) on the "
+                             "never-pushed empty literal" % executed["native"]
                              if ctx.quick() else "all four engines") +
-                            "; assembler level = {TUPLE_GET, STRUCT_GET, STRUCT_SET, UNION_FIELD} x field counts 0..4 x k in {count, count+1, 255, 256, 65535}"),
-            "grid_fault_cells_per_engine": grid_sizes,
-            "fault_cells_executed": {e: sum(1 for c in plan[e][1].values() if not c.control) for e in ENGINES},
+                            ".  placement grid (access in: nested call chain, loop body, match arm, call argument, cond branch, function called "
+                            "from a global initialiser, global initialiser itself; + main for the wrapper executable) x ops x kinds x "
+                            "{literal 3, pushed 3, never pushed} x all index classes: " +
+                            ("sampled per (placement, op, kind) with rotating construction / index class" if ctx.quick()
+                             else "complete on vm, nano_vm, native, evaluator (no global placements: shadow tests do not run initialisers); "
+                                  "the wrapper executable (one C link per cell) is sampled, 4 cells per (placement, op, kind)") +
+                            ".  assembler level = {TUPLE_GET, STRUCT_GET, STRUCT_SET, UNION_FIELD} x field counts 0..4 x k in {count, count+1, 255, 256, 65535}"),
+            "grid_fault_cells": grid_sizes,
+            "fault_cells_executed": executed,
             "fault_cells_evaluated": evaluated,
-            "controls": {e: "%d/%d passed" % (controls_ok[e], controls_all[e]) for e in ENGINES},
+            "controls": {e: "%d/%d passed" % (controls_ok[e], controls_all[e]) for e in PK},
+            "placement_outcomes": dict(sorted(place_hist.items())),
             "outcomes": dict(sorted(hist.items())),
             "not_stopped_by_key": dict(sorted(nonstop.items())),
             "control_outcomes": dict(sorted((k, v) for k, v in ctl_hist.items() if not k.endswith("|ok"))),
@@ -801,5 +1065,9 @@ def run(ctx):
             "the evaluator is observed through nanoc --verbose (shadow output is discarded otherwise); 'no binary' = main.bin does not exist",
             "cells whose in-range control does not behave on an engine (e.g. array literals of structs do not compile natively, the evaluator "
             "cannot pop/remove from literal arrays or array_set pushed ones: census / C03 findings) are skipped and counted, not judged",
+            "the wrapper executable (nano_virt -o) is linked through tools/fastcc with the flavor's sanitizer flags and -DNANOLANG_VERIF "
+            "(its generated main() must see the flavor's VmState layout)",
+            "global placements: a fault while the global initialisers run must also keep main from running (a C08:MAIN line counts like "
+            "C08:AFTER); natively a global initialiser that calls a function may not compile (census global_fn_init): skipped and counted",
             "char_at is outside the statement of C08 (strings) and docs/STDLIB.md contradicts itself; it is recorded, not judged",
         ])
